@@ -59,7 +59,7 @@ def run(ctx):
     if ctx.extra['drift']['normal'] * 2 > max(1, res.get('traces', 0)):
         from tools.check import MachineryError
         raise MachineryError('model and code have drifted apart on most behaviours (%s): the imposed schedules no longer mean anything' % ctx.extra['drift'])
-    ctx.require_actions('ReserveFast', 'ReserveSafeAdd', 'ReserveSafeRefuse', 'Seal', 'Lock', 'LockProbe')
+    ctx.require_actions('ReserveFast', 'ReserveSafeAdd', 'ReserveSafeRefuse', 'Seal', 'Lock', 'LockProbe', 'Abandon')
 
 
 META = {
